@@ -4,6 +4,7 @@ from sa.index import AnalysisError, FuncInfo
 from sa.paths import call_name, Model
 from rules.common import txt, paths_of, loc, tests_on, Quiet
 from rules.locks import is_private
+from sa.consteval import Folder, Unknown
 
 BASE = 'queueutils.BasePriorityQueue'
 CONCRETE = ('queueutils.HeapPriorityQueue', 'queueutils.SortedPriorityQueue')
@@ -40,7 +41,8 @@ MANIFEST = {
 class M(Quiet):
     def inline(self, walker, op, callee, st):
         rv = op.recv_val
-        return isinstance(rv, ast.Name) and rv.id == 'self' and callee.name == '_cull'
+        return isinstance(rv, ast.Name) and rv.id == 'self' and is_private(callee.name) and \
+            callee.name not in ('_push_entry', '_pop_entry', '_get_priority')
 
     def call_raises(self, walker, op, st):
         if txt(op.val.func) == 'self._pop_entry':
@@ -74,8 +76,13 @@ def run(ctx):
             rets = [n for n in ast.walk(po.node) if isinstance(n, ast.Return) and n.value is not None]
             pop0 = True
             if 'pop' in ocalls:
+                def _is_zero(e):
+                    try:
+                        return Folder(po.module).fold(e) == 0
+                    except Unknown:
+                        return False
                 pop0 = any(isinstance(n, ast.Call) and isinstance(n.func, ast.Attribute) and n.func.attr == 'pop' and n.args
-                           and txt(n.args[0]) == '0' for n in ast.walk(po.node))
+                           and _is_zero(n.args[0]) for n in ast.walk(po.node))
             ctx.ob('T1.hook', cls, 'push/pop hooks are a matching pair for the backend and _pop_entry returns the smallest entry',
                    pair_ok and bool(rets) and pop0, loc=po.loc, detail='push uses %s, pop uses %s' % (sorted(pcalls), sorted(ocalls)))
         # add
@@ -186,8 +193,44 @@ def run(ctx):
                     '_pq' in txt(n.value) or '_pop_entry' in txt(n.value) or
                     (isinstance(n.value, ast.Subscript) and txt(n.value.value) in pq_alias)):
                 t = n.targets[0]
+                # names of this function used in the task role: compared with the tombstone, used as entry-map key, returned
+                role = set()
+                for x in ast.walk(m.node):
+                    if isinstance(x, ast.Compare) and len(x.ops) == 1 and isinstance(x.ops[0], (ast.Is, ast.IsNot)) and \
+                            '_REMOVED' in (txt(x.left), txt(x.comparators[0])):
+                        role.update(y.id for y in (x.left, x.comparators[0]) if isinstance(y, ast.Name) and y.id != '_REMOVED')
+                    if isinstance(x, ast.Subscript) and txt(x.value) == 'self._entry_map' and isinstance(x.slice, ast.Name):
+                        role.add(x.slice.id)
+                    if isinstance(x, ast.Return) and isinstance(x.value, ast.Name):
+                        role.add(x.value.id)
+                tnames = [txt(e) for e in t.elts]
+                in_role = [nm for nm in tnames if nm in role]
                 ctx.ob('T12.layout', '%s.%s' % (BASE, name), 'entry destructuring `%s` has the 3-slot layout with the task last' % txt(t),
-                       len(t.elts) == 3 and txt(t.elts[2]) == 'task', loc=loc(m, n))
+                       len(t.elts) == 3 and all(nm == tnames[2] for nm in in_role), loc=loc(m, n),
+                       detail='names used as the task: %s' % sorted(in_role))
+    # who may change the entry list: the backend hooks only (a heap popped with list.pop(0) loses its invariant)
+    LIST_MUT = {'pop', 'append', 'insert', 'remove', 'extend', 'sort', 'reverse', 'clear', '__delitem__', '__setitem__'}
+    n_w = 0
+    for name, m in base.members.items():
+        if not isinstance(m, FuncInfo):
+            continue
+        alias = {'self._pq'} | {x.targets[0].id for x in ast.walk(m.node) if isinstance(x, ast.Assign) and txt(x.value) == 'self._pq'
+                                and isinstance(x.targets[0], ast.Name)}
+        for n in ast.walk(m.node):
+            bad = None
+            if isinstance(n, ast.Call) and isinstance(n.func, ast.Attribute) and txt(n.func.value) in alias and n.func.attr in LIST_MUT:
+                bad = '%s(...)' % txt(n.func)
+            elif isinstance(n, ast.Subscript) and isinstance(n.ctx, (ast.Store, ast.Del)) and txt(n.value) in alias:
+                bad = 'item store/delete on %s' % txt(n.value)
+            elif isinstance(n, ast.Call) and call_name(n) in ('heappop', 'heappush', 'heapq.heappop', 'heapq.heappush', 'insort',
+                                                              'bisect.insort', 'bisect.insort_right') and n.args and txt(n.args[0]) in alias:
+                bad = '%s on the entry list' % call_name(n)
+            if bad:
+                n_w += 1
+                ctx.ob('T11.pq', '%s.%s' % (BASE, name), 'the entry list is changed only through the backend hooks _push_entry/_pop_entry '
+                       '(the base class cannot know the backend\'s invariant)', False, loc=loc(m, n), detail=bad)
+    if n_w == 0:
+        ctx.ob('T11.pq', BASE, 'the entry list is changed only through the backend hooks _push_entry/_pop_entry', True, loc=base.module.relpath)
     # counter ownership
     writers = {}
     for c in (base,) + tuple(prog.cls(x) for x in CONCRETE):
